@@ -10,7 +10,8 @@
 //	A  proposes from its mempool (ProduceProposal) and later commits its own block with
 //	   blockResult=nil (replay inside CommitCertificate)
 //	B  validates as a replica (ValidateProposal) - in the "dirty" variant after a speculative
-//	   ValidateProposal of a DIFFERENT block whose state was left in the FSM - recomputes the
+//	   ValidateProposal of a DIFFERENT block (built by another proposer, one transaction of its
+//	   own) whose state was left in the FSM - recomputes the
 //	   certificate results on its own FSM, then commits with the cached block result
 //	R  is restarted (every in-memory layer rebuilt from its database) before each block and
 //	   commits with blockResult=nil; dirty variant: a stale cached result of another block
@@ -118,10 +119,14 @@ func pass1(j job) (res result) {
 			res.HarnessErr = err.Error()
 			return
 		}
-		// a different block for the dirty variant: the proposal A holds before the recipe's transactions arrive
+		// R is re-opened from its database before every block
+		restartErr := w.R.Restart()
+		// a different block for the dirty variant: another proposer (R) builds a block with one
+		// transaction of its own; replicas validate it speculatively and never commit it
 		var other *env.Proposal
-		if j.Dirty {
-			other, _ = w.A.Propose()
+		if j.Dirty && restartErr == nil {
+			w.R.SubmitTxs(sendFee(13, 12, 1, 10000, h))
+			other, _ = w.R.Propose()
 		}
 		w.A.SubmitTxs(out.txs...)
 		p, e := w.A.Propose(out.evidence...)
@@ -131,6 +136,9 @@ func pass1(j job) (res result) {
 		}
 		hdr := p.Block.BlockHeader
 		rec.RC, rec.NumTxs, rec.NoTime = p.RCBuildHeight, len(p.Block.Transactions), headerNoTime(hdr)
+		if p.Results != nil && p.Results.SlashRecipients != nil {
+			rec.Slashes = len(p.Results.SlashRecipients.DoubleSigners)
+		}
 		rec.Header, _ = lib.Marshal(hdr)
 		rec.Results, _ = lib.Marshal(p.Results)
 		if out.orderTx != nil {
@@ -147,7 +155,7 @@ func pass1(j job) (res result) {
 		// --- replica path (B)
 		if other != nil {
 			// speculative validation of another block; its state stays in the FSM (no round interrupt in between)
-			if _, e = w.B.ValidateProposal(other, 0, true); e != nil {
+			if _, e = w.B.ValidateProposal(other, 2, true); e != nil {
 				res.Viols = append(res.Viols, viol(j, i, []problem{{"validate-speculative", "ValidateProposal of the alternative block: " + oneLine(e)}})...)
 				return
 			}
@@ -186,11 +194,11 @@ func pass1(j job) (res result) {
 		// commit with blockResult=nil on the proposer
 		feed(w.A, false, "commit-replay")
 		// restart, then commit with blockResult=nil (dirty: a stale cached result of another block)
-		if e := w.R.Restart(); e != nil {
-			ps = append(ps, problem{"restart", "re-opening the node: " + oneLine(e)})
+		if restartErr != nil {
+			ps = append(ps, problem{"restart", "re-opening the node: " + restartErr.Error()})
 		} else {
 			if other != nil {
-				if _, e = w.R.ValidateProposal(other, 0, true); e != nil {
+				if _, e = w.R.ValidateProposal(other, 2, true); e != nil {
 					ps = append(ps, problem{"restart-speculative", oneLine(e)})
 				}
 			}
@@ -316,7 +324,7 @@ func main() {
 	}
 	only := flag.String("only", "", "comma separated recipe names: restrict the alphabet (mutant runs)")
 	nworkers := flag.Int("workers", 0, "worker processes (0 = one per CPU)")
-	r := mc.Start("C03", "model_checking", 85*time.Second, 27*time.Minute)
+	r := mc.Start("C03", "model_checking", 70*time.Second, 27*time.Minute)
 	r.Assumptions = []string{
 		"nodes are driven through the controller's exported entry points in the order the bft/p2p listeners call them (env.Node); certificates are signed by the whole committee in force",
 		"block time and transaction time stamps are the proposer's wall clock: inputs, carried as bytes to every other path; the second process compares the proposer's header modulo time",
@@ -336,6 +344,9 @@ func main() {
 		for i := 0; i < 5; i++ {
 			res := exec(job{Pass: 1, Path: rp.Path, Dirty: rp.Dirty})
 			fmt.Printf("replay %d: ok=%v err=%s blocks=%d\n", i, res.OK, res.HarnessErr, len(res.Blocks))
+			for _, b := range res.Blocks {
+				fmt.Printf("   block %d recipe=%s offered=%d included=%d double_signers=%d %s\n", b.Height, b.Recipe, len(b.Txs), b.NumTxs, b.Slashes, b.NoTime)
+			}
 			for _, v := range res.Viols {
 				r.OnViol(v)
 			}
@@ -355,7 +366,7 @@ func main() {
 			alphabet = append(alphabet, i)
 		}
 	}
-	caps := []int{0, 0, 14}
+	caps := []int{0, 0, 6}
 	if !r.Quick() {
 		caps = []int{0, 0, 120, 60}
 	}
@@ -426,6 +437,7 @@ func main() {
 				recipeStats[last.Recipe]["blocks"]++
 				recipeStats[last.Recipe]["txs_offered"] += len(last.Txs)
 				recipeStats[last.Recipe]["txs_included"] += last.NumTxs
+				recipeStats[last.Recipe]["double_signers_in_results"] += last.Slashes
 			}
 			pids[len(jobs2)] = res.Pid
 			jobs2 = append(jobs2, job{Pass: 2, Path: jobs[i].Path, Dirty: jobs[i].Dirty, Blocks: res.Blocks})
